@@ -211,3 +211,27 @@ Proof.
   intros x y x' y' Hx Hy. unfold get_region_for_chip_default_level.
   rewrite region_for_chip_selects by lia. change (sub_side 3) with 1. rewrite !Z.div_1_r. reflexivity.
 Qed.
+
+(* ------------------------------------------------------------------------------------------ *)
+(* instances (non-vacuity)                                                                      *)
+(* ------------------------------------------------------------------------------------------ *)
+Definition ex_targets : list core :=
+  [(4, 0, 4); (0, 0, 1); (0, 1, 2); (0, 0, 2); (1, 0, 3); (0, 0, 4); (0, 1, 1); (0, 1, 4); (1, 0, 2);
+   (4, 0, 1); (4, 0, 2); (0, 0, 2)].
+
+Lemma ex_targets_ok :
+  Forall in_space ex_targets /\
+  compress ex_targets = Ok [(196610, 8); (196625, 18); (196627, 4); (67305473, 22)].
+Proof.
+  split.
+  - unfold ex_targets. repeat (constructor; [unfold in_space; lia|]). constructor.
+  - vm_compute. reflexivity.
+Qed.
+
+Lemma ex_outside_ok :
+  Exists (fun c => ~ in_space c) [(0, 0, 1); (256, 0, 1)] /\ compress [(0, 0, 1); (256, 0, 1)] = Failed 0.
+Proof.
+  split.
+  - apply Exists_cons_tl. apply Exists_cons_hd. unfold in_space. lia.
+  - vm_compute. reflexivity.
+Qed.
